@@ -292,3 +292,90 @@ func noteDML(run *vf.Run, res *caseResult) {
 		run.Sample(map[string]any{"case": rt.c.Idx, "collections": rt.c.Colls, "packs_per_pchannel": len(rt.c.Scripts[rt.c.SrcPs[0]]), "steps": rt.c.Steps, "emitted_packs": len(rt.emitted), "api_events": rt.apiEvs})
 	}
 }
+
+func init() {
+	props["C03"] = &propDef{level: "exploration", workers: 6, conc: 6,
+		rule: "case = 2-4 collections (1-3 shards each) whose streams are all multiplexed onto ONE downstream channel, source clocks skewed by 0 / 1 ms / 300 ms / 10 s, 8-30 packs per source pchannel with tick-only/data mixes and equal-timestamp runs, TTInterval 1 ms or 10 s; three schedule families fixed per case index: free running, seeded 0-2 ms delays at the 'presend' point (pack computed, channel lock released, not yet enqueued), and pairwise inversion plans that hold stream A at 'presend' until a pack of stream B is done; every 7th case starts from a checkpoint (seek position) above the lagging streams' clocks. The per-channel predicate is evaluated in computed order (hook inside the channel lock) and in dequeue order. Non-trivial = >= 2 streams emitted on the channel and >= 20 packs observed; distinct by interleaving signature.",
+		assume: []string{
+			"tick-only packs keep the source Begin/EndTs while their tick is on the channel clock; the agreement clause is applied to packs that carry data, as the statement says",
+			"pack-level agreement is checked as: message begin = end = every row ts = message position ts; pack [BeginTs, EndTs] covers the message timestamps; start/end position ts = Begin/EndTs",
+			"the resume clause is checked here only as 'first emitted times are above the seek position'; real kill/restart resume is part of the system rig (C05)",
+		},
+		nCases: func(r *vf.Run) int { return r.Pick(240, 4800) },
+		gen:    genClock,
+		check: func(run *vf.Run, res *caseResult) {
+			st := &c03Stats{orders: map[string]struct{}{}}
+			vs := checkC03(res.rt, st)
+			for _, v := range vs {
+				run.Violate(v.key, v.desc, replayOf(res, map[string]any{"note": res.rt.c.Note}))
+			}
+			run.Count("cases_quiescent", 1)
+			run.Count("packs_observed", st.packs)
+			run.Count("data_packs", st.dataPacks)
+			run.Count("tick_only_packs", st.tickOnly)
+			run.Count("realised_inversions", st.inversions)
+			run.Count("channels_with_3plus_streams", st.channels3)
+			run.Count("family_"+res.rt.c.Note, 1)
+			for s := range st.orders {
+				run.Distinct("interleavings", s)
+				if st.packs >= 20 {
+					run.Nontrivial(s)
+				}
+			}
+			if res.rt.c.Idx < 2 {
+				run.Sample(map[string]any{"case": res.rt.c.Idx, "note": res.rt.c.Note, "collections": res.rt.c.Colls, "holds": res.rt.c.Holds, "packs_emitted": st.packs, "inversions": st.inversions})
+			}
+		},
+		floors: func(run *vf.Run) {
+			run.Floor("cases_quiescent", run.Pick(80, 1600))
+			run.Floor("packs_observed", run.Pick(3000, 60000))
+			run.Floor("realised_inversions", run.Pick(10, 200))
+			run.Floor("channels_with_3plus_streams", run.Pick(10, 200))
+			run.Floor("tick_only_packs", 50)
+		}}
+	props["C04"] = &propDef{level: "exploration", workers: 6, conc: 6,
+		rule: "case = catalog of 1-3 collections x 1-4 shards with scripted drop-partition / drop-collection messages; for one object per case the order in which the shards deliver the drop is imposed by logical dependencies (all S! orders for S <= 4 are cycled through by case index); AddPartition issued either after registration settled or immediately after StartReadCollection (odd cases: races the asynchronous stream registration); every 6th case stops a collection mid-run; every 6th case restarts with objects dropped upstream while CDC was down (with and without a seek time); the rig consumes the event channel and checks count, names, position relative to the per-shard feed events, and later emissions. Non-trivial = at least one object with >= 2 shards got its drop on every shard; distinct by (shard count, delivery order, mode).",
+		assume: []string{
+			"'read on every shard' is judged leniently: an event must not precede the moment the drop pack was handed to that shard's stream",
+			"a missing drop event is reported only after logical quiescence plus a 30 s watchdog with the system idle; the deciding condition for 'too early' and 'twice' is purely logical",
+			"'nothing is emitted afterwards' is judged on packs READ after the drop request was issued: packs already read and still travelling through the pipeline (the pack carrying the drop itself, packs in a forward queue) when the barrier fired count as before; objects dropped while CDC was down are exempt from this clause (their synthetic drop necessarily precedes the replayed data)",
+		},
+		nCases: func(r *vf.Run) int { return r.Pick(240, 3600) },
+		gen:    genDrops,
+		check: func(run *vf.Run, res *caseResult) {
+			st := &c04Stats{shardCounts: map[int]int{}}
+			vs := checkC04(res.rt, st)
+			for _, v := range vs {
+				run.Violate(v.key, v.desc, replayOf(res, map[string]any{"note": res.rt.c.Note}))
+			}
+			run.Count("cases_quiescent", 1)
+			run.Count("drop_objects", st.objects)
+			run.Count("drop_events", st.events)
+			run.Count("dropped_while_down_without_seek_time_no_event", st.seekZeroNoEvent)
+			for s, n := range st.shardCounts {
+				run.Count(fmt.Sprintf("objects_with_%d_shards", s), n)
+			}
+			mode := res.rt.c.Idx % 6
+			run.Count(fmt.Sprintf("mode_%d", mode), 1)
+			if res.rt.c.Idx%2 == 1 {
+				run.Count("cases_addpartition_racing_registration", 1)
+			}
+			if strings.Contains(res.rt.c.Note, "drop order") {
+				run.Distinct("delivery_orders", res.rt.c.Note[:strings.Index(res.rt.c.Note, " for ")])
+				if st.events > 0 {
+					run.Nontrivial(fmt.Sprintf("%s/mode%d/race%v", res.rt.c.Note, mode, res.rt.c.Idx%2 == 1))
+				}
+			}
+			if res.rt.c.Idx < 2 {
+				run.Sample(map[string]any{"case": res.rt.c.Idx, "note": res.rt.c.Note, "collections": res.rt.c.Colls, "steps": res.rt.c.Steps, "api_events": res.rt.apiEvs})
+			}
+		},
+		floors: func(run *vf.Run) {
+			run.Floor("cases_quiescent", run.Pick(80, 1200))
+			run.Floor("drop_events", run.Pick(60, 900))
+			run.Floor("delivery_orders", 6)
+			run.Floor("cases_addpartition_racing_registration", 20)
+			run.Floor("mode_4", 10)
+			run.Floor("mode_5", 10)
+		}}
+}
